@@ -70,6 +70,18 @@ func (c *chanList) remove(id uint32) {
 	c.Unlock()
 }
 
+// removeChan removes ch from the list if it still is the channel registered
+// under id. Unlike remove it does not disturb another channel that has been
+// given the same id in the meantime.
+func (c *chanList) removeChan(id uint32, ch *channel) {
+	id -= c.offset
+	c.Lock()
+	if id < uint32(len(c.chans)) && c.chans[id] == ch {
+		c.chans[id] = nil
+	}
+	c.Unlock()
+}
+
 // dropAll forgets all channels it knows, returning them in a slice.
 func (c *chanList) dropAll() []*channel {
 	c.Lock()
